@@ -176,17 +176,13 @@ def contentRangeList (ctx : Ctx) (uri : Bytes) (rangeValue : Bytes) : Outcome Li
         | some isLink =>
           let path : Outcome (Option Bytes) :=
             if isLink then
-              match readLink ctx.tree staticPath with
+              -- since F75: `std::fs::canonicalize(static_filepath)` - the OPERATING SYSTEM follows the link (as `metadata`
+              -- above has done), whatever directory links or `//`, `/./` segments the requested path goes through; a failure,
+              -- or a real path that is not valid Unicode, is a 500.  (Before: `resolve_symlink_path` edited the TEXT of the
+              -- requested path, so a `..` of the link's target could leave the served directory.)
+              match locate ctx.tree staticPath with
               | none => .ok none
-              | some pointsTo =>
-                let dir := match splitOnce staticPath.reverse [47] with
-                  | some (_, p) => p.reverse
-                  | none => []
-                -- `resolve_symlink_path` is an Err for a relative target that climbs above `/`: 500 (F41);
-                -- a resolved text without a leading slash is opened relative to the working directory
-                match resolveSymlinkPath (pointsTo.length + 2) dir pointsTo with
-                | some p => .ok (some (if p.head? = some 47 then p else ctx.cwd ++ [47] ++ p))
-                | none => .ok none
+              | some loc => if Unicode.validUtf8 (pathOf loc) then .ok (some (pathOf loc)) else .ok none
             else .ok (some staticPath)
           match path with
           | .panic s => .panic s
